@@ -3,6 +3,7 @@ package c17
 import (
 	"context"
 	"fmt"
+	"regexp"
 	"strings"
 	"testing"
 
@@ -115,7 +116,6 @@ func checkDown(c DCase) (DOutcome, error) {
 	}
 	return out, nil
 }
-
 
 // checkPlanDown: every formatter's down section / rollback lines are exactly the reverse statements (in reverse change order).
 func checkPlanDown(plan *migrate.Plan, scan func(string) ([]*migrate.Stmt, error)) (int, error) {
@@ -361,9 +361,32 @@ var knownInv = ev.Matcher[GCase]{
 	// PostgreSQL: the reverse of DROP COLUMN / DROP INDEX re-creates the object without its comment (comments are separate
 	// statements of the forward plan; the reverse holds the ALTER / CREATE INDEX statement only)
 	"postgres-reverse-lacks-comment": func(c GCase, err error) bool {
-		return c.Dialect == "postgres" && strings.Contains(err.Error(), "(missing-kinds: [COMMENT ON])")
+		return c.Dialect == "postgres" && strings.Contains(err.Error(), "(missing-kinds: COMMENT ON)")
+	},
+	// MySQL and PostgreSQL drop an index together with the last column it covers, so the planners leave the DROP INDEX out;
+	// the reverse re-adds the column only, the index (and its comment) is gone after up and down
+	"auto-dropped-index-not-restored": func(c GCase, err error) bool {
+		m := reMissingKinds.FindStringSubmatch(err.Error())
+		if m == nil {
+			return false
+		}
+		for _, k := range strings.Split(m[1], "|") {
+			switch k {
+			case "ADD INDEX", "ADD UNIQUE", "CREATE INDEX", "CREATE UNIQUE", "COMMENT ON":
+			default:
+				return false
+			}
+		}
+		for _, e := range c.Edits {
+			if e.Kind == "drop-indexed-column" {
+				return true
+			}
+		}
+		return false
 	},
 }
+
+var reMissingKinds = regexp.MustCompile(`\(missing-kinds: ([^)]*)\)`)
 
 func runInverse(t *testing.T, col *ev.Collector) bool {
 	check := func(c GCase) error {
